@@ -120,6 +120,17 @@ pub fn c10(ctx: &Ctx, subj: &dyn DynSubject, ty: &Ty, rep: &mut Report) {
             m[10..12].copy_from_slice(&mv.to_ne_bytes());
             muts.push((format!("minor version {}", mv), m));
         }
+        // the same single-bit flips on a valid file of a lower minor version (two header fields deviate at once)
+        let base_minor0 = {
+            let mut b = bytes[..FIXED_HEADER].to_vec();
+            b[10..12].copy_from_slice(&0u16.to_ne_bytes());
+            b
+        };
+        for bit in (0..FIXED_HEADER * 8).filter(|b| !(80..96).contains(b)) {
+            let mut m = base_minor0.clone();
+            m[bit / 8] ^= 1 << (bit % 8);
+            muts.push((format!("minor version 0 and flip bit {} of byte {}", bit % 8, bit / 8), m));
+        }
         for (n, (what, head)) in muts.iter().enumerate() {
             let mut mutated = bytes.clone();
             mutated[..FIXED_HEADER].copy_from_slice(head);
@@ -163,8 +174,21 @@ pub fn c11(ctx: &Ctx, subj: &dyn DynSubject, ty: &Ty, rep: &mut Report) {
         let enc = model_enc_fit(ctx, subj, ty, v, bytes.len(), log)?;
         let len = bytes.len();
         log.sample = Some(sample_json(subj, v, Some(&bytes), json!({"cuts": if len <= 600 { "every k in [0,len)".to_string() } else { "256 sampled incl. field boundaries".to_string() }})));
-        let cuts: Vec<usize> = if len <= 600 {
+        let cuts: Vec<usize> = if len <= 600 && !light() {
             (0..len).collect()
+        } else if light() {
+            // fuzzing: a spread of cut points chosen by the input's entropy
+            let mut c: Vec<usize> = vec![0, FIXED_HEADER.min(len - 1), enc.header_len.min(len - 1), len - 1];
+            for b in enc.boundaries.iter().take(24) {
+                c.extend([b.saturating_sub(1), *b, b + 1]);
+            }
+            for _ in 0..24 {
+                c.push(ent.pick(len));
+            }
+            c.retain(|k| *k < len);
+            c.sort();
+            c.dedup();
+            c
         } else {
             let mut c: Vec<usize> = vec![0, 1, FIXED_HEADER - 1, FIXED_HEADER, enc.header_len - 1, enc.header_len, enc.header_len + 1, len - 1, len - 2];
             for b in &enc.boundaries {
@@ -203,6 +227,9 @@ pub fn c11(ctx: &Ctx, subj: &dyn DynSubject, ty: &Ty, rep: &mut Report) {
                     log.classes.push("eps-bounds-panic".into());
                 }
             }
+        }
+        if light() {
+            return Ok(());
         }
         // file-backed entry points that do not zero-extend, on a few cut points of the file that `store` writes
         // (a crash while storing leaves a prefix of *that* file behind)
